@@ -9,6 +9,7 @@ import (
 	"go/types"
 	"os"
 	"path/filepath"
+	"regexp"
 	"sort"
 	"strings"
 	"sync"
@@ -32,6 +33,7 @@ type Prog struct {
 	axiomsForLang map[string][]string // language -> SMT axioms contributed by proved lemmas
 	lemmaAxioms   map[string]lemmaAx
 	markers       []string
+	opaqueDefs    map[string]string
 }
 
 const modPath = "github.com/google/safehtml"
@@ -628,14 +630,14 @@ const seqPrelude = `(declare-sort BSeq 0)
 var builtinSpecOrder = []string{"iface_pack", "hexdigl", "hexdigu", "hex2lower", "hex6upper", "utf8enc", "utf8len", "utf8dec", "bs_nth"}
 var builtinSpecs = map[string]string{
 	"iface_pack": "(declare-fun iface_pack (Int BSeq) BSeq)",
-	"hexdigl":   "(define-fun hexdigl ((d Int)) Int (ite (< d 10) (+ 48 d) (+ 87 d)))",
-	"hexdigu":   "(define-fun hexdigu ((d Int)) Int (ite (< d 10) (+ 48 d) (+ 55 d)))",
-	"hex2lower": "(define-fun hex2lower ((c Int)) BSeq (bs_cat (bs_unit (hexdigl (div c 16))) (bs_unit (hexdigl (mod c 16)))))",
-	"hex6upper": "(define-fun hex6upper ((c Int)) BSeq (bs_cat (bs_unit (hexdigu (mod (div c 1048576) 16))) (bs_cat (bs_unit (hexdigu (mod (div c 65536) 16))) (bs_cat (bs_unit (hexdigu (mod (div c 4096) 16))) (bs_cat (bs_unit (hexdigu (mod (div c 256) 16))) (bs_cat (bs_unit (hexdigu (mod (div c 16) 16))) (bs_unit (hexdigu (mod c 16))))))))",
-	"utf8enc":   "(declare-fun utf8enc (BSeq) BSeq)",
-	"utf8len":   "(declare-fun utf8len (Int) Int)",
-	"utf8dec":   "(declare-fun utf8dec (BSeq) BSeq)",
-	"bs_nth":    "(declare-fun bs_nth (BSeq Int) Int)",
+	"hexdigl":    "(define-fun hexdigl ((d Int)) Int (ite (< d 10) (+ 48 d) (+ 87 d)))",
+	"hexdigu":    "(define-fun hexdigu ((d Int)) Int (ite (< d 10) (+ 48 d) (+ 55 d)))",
+	"hex2lower":  "(define-fun hex2lower ((c Int)) BSeq (bs_cat (bs_unit (hexdigl (div c 16))) (bs_unit (hexdigl (mod c 16)))))",
+	"hex6upper":  "(define-fun hex6upper ((c Int)) BSeq (bs_cat (bs_unit (hexdigu (mod (div c 1048576) 16))) (bs_cat (bs_unit (hexdigu (mod (div c 65536) 16))) (bs_cat (bs_unit (hexdigu (mod (div c 4096) 16))) (bs_cat (bs_unit (hexdigu (mod (div c 256) 16))) (bs_cat (bs_unit (hexdigu (mod (div c 16) 16))) (bs_unit (hexdigu (mod c 16))))))))",
+	"utf8enc":    "(declare-fun utf8enc (BSeq) BSeq)",
+	"utf8len":    "(declare-fun utf8len (Int) Int)",
+	"utf8dec":    "(declare-fun utf8dec (BSeq) BSeq)",
+	"bs_nth":     "(declare-fun bs_nth (BSeq Int) Int)",
 }
 var builtinSpecDeps = map[string][]string{"hex2lower": {"hexdigl"}, "hex6upper": {"hexdigu"}}
 
@@ -654,29 +656,33 @@ func (fx *FuncCtx) scriptFor(ob *Obligation) string {
 			}
 		}
 		fx.hdr = fx.header()
+		fx.hdrLines = strings.Split(fx.hdr, "\n")
 	})
 	var b strings.Builder
-	markers := fx.prog.seqMarkers()
-	seqFree := !mentionsAny(ob.Goal, markers)
-	if seqFree {
-		// the goal does not talk about sequences: drop every assumption that does (sound: fewer
-		// hypotheses), which keeps the quantified sequence axioms out of the solver's way
-		for _, l := range strings.Split(fx.hdr, "\n") {
-			if strings.HasPrefix(l, "(assert") && mentionsAny(l, markers) {
-				continue
+	tn := fx.tainter()
+	goalT := tn.of(ob.Goal + " " + ob.PC)
+	keep := func(l string) bool {
+		if !(strings.HasPrefix(l, "(assert") || strings.HasPrefix(l, "(define-fun")) {
+			return true
+		}
+		for f := range tn.of(l) {
+			if !goalT[f] {
+				return false
 			}
+		}
+		return true
+	}
+	for _, l := range fx.hdrLines {
+		if keep(l) {
 			b.WriteString(l)
 			b.WriteString("\n")
 		}
-	} else {
-		b.WriteString(fx.hdr)
 	}
 	for _, l := range fx.lines[:ob.Prefix] {
-		if seqFree && strings.HasPrefix(l, "(assert") && mentionsAny(l, markers) {
-			continue
+		if keep(l) {
+			b.WriteString(l)
+			b.WriteString("\n")
 		}
-		b.WriteString(l)
-		b.WriteString("\n")
 	}
 	fmt.Fprintf(&b, "(assert %s)\n", ob.PC)
 	fmt.Fprintf(&b, "(assert (not %s))\n", ob.Goal)
@@ -715,4 +721,94 @@ func (p *Prog) seqMarkers() []string {
 	// functions defined through sequence functions are found by their definitions mentioning a marker
 	p.markers = m
 	return m
+}
+
+// tainter computes, for a piece of SMT text, the "heavy" symbol families it depends on: ghost
+// sequences ("seq") and each recursive spec function. Assumptions whose families are not all
+// mentioned by the goal are left out of that goal's script (fewer hypotheses: sound), so that
+// quantified sequence axioms and recursive definitions do not slow unrelated goals down.
+type tainter struct {
+	mu      sync.Mutex
+	defs    map[string]string          // define-fun name -> body text
+	memo    map[string]map[string]bool // name -> families
+	rec     map[string]bool
+	markers []string
+	nameRe  *regexp.Regexp
+}
+
+var identRe = regexp.MustCompile(`[A-Za-z_][A-Za-z0-9_!.]*`)
+
+func (fx *FuncCtx) tainter() *tainter {
+	fx.taintOnce.Do(func() {
+		t := &tainter{defs: map[string]string{}, memo: map[string]map[string]bool{}, rec: map[string]bool{}, markers: fx.prog.seqMarkers()}
+		scan := func(l string) {
+			if strings.HasPrefix(l, "(define-fun-rec ") {
+				f := strings.Fields(l)
+				t.rec[f[1]] = true
+				t.defs[f[1]] = l
+			} else if strings.HasPrefix(l, "(define-fun ") {
+				f := strings.Fields(l)
+				t.defs[f[1]] = l
+			}
+		}
+		for _, l := range fx.hdrLines {
+			scan(l)
+		}
+		for _, l := range fx.lines {
+			scan(l)
+		}
+		fx.prog.rxMu.Lock()
+		for n, body := range fx.prog.opaqueDefs {
+			t.defs[n] = n + " " + body
+		}
+		fx.prog.rxMu.Unlock()
+		fx.taint = t
+	})
+	return fx.taint
+}
+
+func (t *tainter) of(text string) map[string]bool {
+	t.mu.Lock()
+	defer t.mu.Unlock()
+	return t.ofLocked(text, map[string]bool{})
+}
+
+func (t *tainter) ofLocked(text string, visiting map[string]bool) map[string]bool {
+	out := map[string]bool{}
+	if mentionsAny(text, t.markers) {
+		out["seq"] = true
+	}
+	for _, id := range identRe.FindAllString(text, -1) {
+		def, ok := t.defs[id]
+		if !ok {
+			continue
+		}
+		if t.rec[id] {
+			out[id] = true
+		}
+		if m, ok := t.memo[id]; ok {
+			for f := range m {
+				out[f] = true
+			}
+			continue
+		}
+		if visiting[id] {
+			continue
+		}
+		visiting[id] = true
+		// the definition line starts with its own name; skip it to avoid trivial self-reference
+		body := def
+		if k := strings.Index(def, id); k >= 0 {
+			body = def[k+len(id):]
+		}
+		m := t.ofLocked(body, visiting)
+		if t.rec[id] {
+			m[id] = true
+		}
+		t.memo[id] = m
+		for f := range m {
+			out[f] = true
+		}
+	}
+	return out
 }
